@@ -556,6 +556,36 @@ def register(E):
     @model(r'^(?:std|core)::hint::(black_box|assert_unchecked|must_use)$')
     def _(E, st, callee, a, m): return [(T, a[0] if a else UNIT)]
 
+    # ranges
+    @model(r'^(?:std|core)::ops::RangeInclusive::(new|start|end|contains|is_empty|into_inner)$|^(?:std|core)::ops::(Range|RangeFrom|RangeTo|RangeToInclusive)::(contains|is_empty)$|^<(?:std|core)::ops::(?:Range|RangeInclusive|RangeFrom|RangeTo|RangeToInclusive) as (?:std|core)::ops::RangeBounds>::contains$')
+    def _(E, st, callee, a, m):
+        g = [x for x in m.groups() if x]
+        op = g[-1] if g else 'contains'
+        kind = 'RangeInclusive' if 'RangeInclusive' in callee and 'RangeToInclusive' not in callee else (
+            'RangeToInclusive' if 'RangeToInclusive' in callee else ('RangeFrom' if 'RangeFrom' in callee else ('RangeTo' if 'RangeTo' in callee else 'Range')))
+        if op == 'new':
+            return [(T, Adt('std::ops::RangeInclusive', None, [a[0], a[1], FALSE]))]
+        r = d(st, a[0])
+        if op == 'start': return [(T, E.root_ref(st, r.fields[0]))]
+        if op == 'end': return [(T, E.root_ref(st, r.fields[1]))]
+        if op == 'into_inner': return [(T, Tup([r.fields[0], r.fields[1]]))]
+        def cmpv(x, y, strict):
+            x, y = d(st, x), d(st, y)
+            if x.s: return (x.v < y.v) if strict else (x.v <= y.v)
+            return z3.ULT(x.v, y.v) if strict else z3.ULE(x.v, y.v)
+        if op == 'contains':
+            x = a[1]
+            if kind == 'RangeInclusive': c = z3.And(cmpv(r.fields[0], x, False), cmpv(x, r.fields[1], False))
+            elif kind == 'Range': c = z3.And(cmpv(r.fields[0], x, False), cmpv(x, r.fields[1], True))
+            elif kind == 'RangeFrom': c = cmpv(r.fields[0], x, False)
+            elif kind == 'RangeTo': c = cmpv(x, r.fields[0], True)
+            else: c = cmpv(x, r.fields[0], False)
+            return [(T, z3.simplify(c))]
+        if op == 'is_empty':
+            if kind == 'RangeInclusive': return [(T, z3.simplify(z3.Not(cmpv(r.fields[0], r.fields[1], False))))]
+            return [(T, z3.simplify(z3.Not(cmpv(r.fields[0], r.fields[1], True))))]
+        raise Inconclusive('range op ' + op)
+
     # integers
     @model(r'^(?:std|core)::num::<impl (u8|u16|u32|u64|usize|i8|i16|i32|i64|isize)>::(\w+)$')
     def _(E, st, callee, a, m):
